@@ -35,6 +35,8 @@ def registry():
             mod = importlib.import_module('contracts.' + m.name)
             if hasattr(mod, 'register'):
                 mod.register(_REG)
+        from contracts import transparency
+        transparency.tag(_REG)
     return _REG
 
 
@@ -174,6 +176,8 @@ def report(prop, tier, seed, results, extra, trusted, t0, rebaseline, verbose):
     res_status = {o['name']: o['status'] for o in obligations}
     violations = []
     unreachable = []
+    dead_cases = []
+    bounded = []
     skipped = []
     known_lines = []
     discharged = 0
@@ -187,6 +191,17 @@ def report(prop, tier, seed, results, extra, trusted, t0, rebaseline, verbose):
         st = o['status']
         if st == 'proved':
             discharged += 1
+            continue
+        if st == 'bounded':
+            counted -= 1          # a bounded stand-in: held on every case of its finite grammar, never counted as proved
+            bounded.append({'check': o['name'], 'cases': o.get('cases'), 'bound': o.get('bound'), 'functions': o.get('function')})
+            continue
+        if st == 'dead-case':
+            counted -= 1
+            if baseline is not None and o['name'] in baseline and not rebaseline:
+                unreachable.append(o['name'])       # was realised on the unchanged tree, is not any more
+            else:
+                dead_cases.append(o['name'])
             continue
         if st == 'vacuous':
             if baseline is not None and o['name'] in baseline and o['kind'] == 'reach':
@@ -274,6 +289,8 @@ def report(prop, tier, seed, results, extra, trusted, t0, rebaseline, verbose):
             'refuted': [o['name'] for o in problems['refuted']],
             'not_examined_after_three_failures_in_the_function': skipped,
             'specification_cases_no_longer_reachable': unreachable,
+            'specification_cases_no_path_realises': dead_cases,
+            'bounded_stand_ins_not_counted_as_proved': bounded,
             'extraction': 'functions are read from %s on every run with ast; dropped: docstrings, comments, the effect of logging '
                           'calls (arguments still evaluated), the keywords async/await' % source.PKG_DIR,
             'obligation_list': sorted(names),
@@ -305,8 +322,9 @@ def report(prop, tier, seed, results, extra, trusted, t0, rebaseline, verbose):
                 print('  ', o['status'], o['name'], o.get('why', ''))
                 if o.get('model'):
                     print('      ' + o['model'][:1500].replace('\n', '\n      '))
-    print('%s: %d functions, %d obligations, %d discharged, %d known findings, %d violations, exit %d, %.1fs'
-          % (prop, len(functions), counted, discharged, len(known_lines), len(violations), exit_code, wall))
+    print('%s: %d functions, %d obligations, %d discharged, %s%d known findings, %d violations, exit %d, %.1fs'
+          % (prop, len(functions), counted, discharged, ('%d bounded stand-ins held (not proofs), ' % len(bounded)) if bounded else '',
+             len(known_lines), len(violations), exit_code, wall))
     return exit_code
 
 
